@@ -614,6 +614,7 @@ class NDNeighborSolicitation (icmp_base):
     if buf_len is None: buf_len = len(raw)
 
     try:
+      if buf_len - offset < 4 + 16: raise TruncatedException()
       offset += 4 # Skip reserved
       o.target = IPAddr6(raw=raw[offset:offset+16])
       offset += 16
@@ -675,6 +676,7 @@ class NDNeighborAdvertisement (icmp_base):
     if buf_len is None: buf_len = len(raw)
 
     try:
+      if buf_len - offset < 4 + 16: raise TruncatedException()
       flags = raw[offset]
       o.is_router = (flags & cls.ROUTER_FLAG) != 0
       o.is_solicited = (flags & cls.SOLICITED_FLAG) != 0
